@@ -57,6 +57,25 @@ Proof.
 Qed.
 Print Assumptions C15_no_invalid_object.
 
+(* literal.NewBoundedBuilder(max).Parse: same guarantees, and accepted text / blob values respect the bound *)
+Theorem C15_bounded_builder : forall (O : oracles) (max : nat) (s : str),
+  (forall site, parse_literal_bounded O max s <> Panic site) /\ parse_literal_bounded O max s <> NilNil /\
+  (forall l, parse_literal_bounded O max s = Ok l ->
+     wf_literal l = true /\ parse_literal O s = Ok l /\
+     match l with LText t => (List.length t <= max)%nat | LBlob b => (List.length b <= max)%nat | _ => True end).
+Proof.
+  intros O max s. pose proof (good_not_panic _ _ _ (parse_literal_bounded_good O max s)) as [H1 H2].
+  split; [exact H1|]. split; [exact H2|]. intros l H.
+  split; [exact (good_ok_wf _ _ _ _ (parse_literal_bounded_good O max s) H)|].
+  unfold parse_literal_bounded in H. destruct (parse_literal O s) as [l0| | |]; try discriminate.
+  destruct l0; try (inversion H; subst; split; [reflexivity | exact I]).
+  - destruct (Nat.ltb max (List.length s0)) eqn:E; [discriminate|]. inversion H; subst. split; [reflexivity|].
+    apply PeanoNat.Nat.ltb_ge in E. exact E.
+  - destruct (Nat.ltb max (List.length b)) eqn:E; [discriminate|]. inversion H; subst. split; [reflexivity|].
+    apply PeanoNat.Nat.ltb_ge in E. exact E.
+Qed.
+Print Assumptions C15_bounded_builder.
+
 (* the statements are not vacuous: the parsers do accept *)
 Definition ex_oracles : oracles :=
   mkOracles (fun s => if str_eqb s (lit """p""") then Some (lit "p") else None) (fun s => [x22] ++ s ++ [x22])
@@ -87,15 +106,12 @@ Proof.
 Qed.
 Print Assumptions C15_accept_stable.
 
-(* triples: PARTIAL - stable when the subject type of the accepted triple has no form feed (a condition of the
-   subject-split lemma; no accepted counterexample is known: OPEN to remove it).  After F4b the predicate id is
-   unrestricted (the components of every accepted triple are individually stable: parse_triple_components) *)
-Theorem C15_accept_stable_triple_partial : forall (O : oracles), accept_laws O -> forall s t,
-  parse_triple O s = Ok t ->
-  memb x0c (ntype (subj t)) = false ->
-  parse_triple O (print_triple O t) = Ok t.
-Proof. exact triple_accept_stable_partial. Qed.
-Print Assumptions C15_accept_stable_triple_partial.
+(* triples: FULL (after F4b).  The subject text of an accepted triple is exactly the printed subject and lies before the
+   first subject split, so the split is found again; the predicate id is skipped as a quoted string *)
+Theorem C15_accept_stable_triple : forall (O : oracles), accept_laws O -> forall s t,
+  parse_triple O s = Ok t -> parse_triple O (print_triple O t) = Ok t.
+Proof. exact triple_accept_stable. Qed.
+Print Assumptions C15_accept_stable_triple.
 
 (* the witness that refuted the full statement before F4b (an id containing ']' blank '/' reached through \x20)
    is now accepted and stable.  Library answers as a table: Unquote of the escaped form, Quote of the id. *)
